@@ -766,3 +766,75 @@ def r01_cfp_calendar_free_productions(ctx: Ctx) -> RuleResult:
     rr = RuleResult("R01.cfp", "day number -> date conversions keep the calendar asked for: no calendar-bearing result (packed year/month/day/calendar included) is produced from calendar-free inputs while a calendar is in hand", min_instances=100)
     check_calendar_free_productions(ctx, rr)
     return rr
+
+
+@rule("C01")
+def r01_8_year_estimate_domain(ctx: Ctx) -> RuleResult:
+    """day number -> year starts from the estimate  candidate = trunc((day - start_of_year_1) * 10 / average_days_per_10_years) + 1
+    and then asks `_get_start_of_year_in_days(candidate)`, which is only defined on [min_year - 1, max_year + 1] (cache entries,
+    fixed tables of the Persian and Um Al Qura calculators).  For every calculator instance the estimate is computed for the first
+    and the last day of the calendar (the expression is monotonic in the day) from the instance's own constants; both must fall
+    inside that domain.  The first / last day come from abstract evaluation of the year-start function, or - for the calculators
+    whose year starts are table driven - from the published leap rule (which R02.2 proves equal to the code's predicate)."""
+    from ..absint import Iv, Obj
+    from ..calendars import calculator_instances
+    from ..oblig import interp
+    from .c02 import _leap_spec
+
+    rr = RuleResult("R01.8", "the year estimate of the day-number -> date conversion stays inside the domain of the year-start function for the first and last day of every calendar", min_instances=12)
+    M = ctx.M
+
+    def tz(a: int, b: int) -> int:
+        q = abs(a) // abs(b)
+        return q if (a < 0) == (b < 0) else -q
+
+    base = M.cls("_YearMonthDayCalculator")
+    gy = M.find_method(base, "_get_year")
+    est = next((n.value for n in own_nodes(gy.node) if isinstance(n, ast.Assign) and isinstance(n.targets[0], ast.Name) and n.targets[0].id == "candidate"), None)
+    if est is None or "average_days_per_10_years" not in unparse(est) or "+ 1" not in unparse(est):
+        raise AnalysisError("_get_year: the estimate `candidate = trunc(days_since_year_1 * 10 / average) + 1` not found")
+    for ci in calculator_instances(ctx):
+        c = M.cls(ci.cls)
+        if M.find_method(c, "_get_year") is not gy:
+            continue  # own conversion (Gregorian fast path etc.)
+        fl = ci.obj.fields
+        avg, d1 = fl.get(mangle("_YearMonthDayCalculator", "__average_days_per_10_years")), fl.get(mangle("_YearMonthDayCalculator", "__days_at_start_of_year_1"))
+        if not (isinstance(avg, Iv) and avg.const and isinstance(d1, Iv) and d1.const):
+            rr.undecided.append(f"{ci.label}: constructor constants not exact")
+            continue
+        a, s1 = int(avg.lo), int(d1.lo)
+        f = M.find_method(c, "_get_start_of_year_in_days")
+        ends = []
+        for y in (ci.min_year, ci.max_year + 1):
+            I = interp(ctx)
+            I.max_depth = 8
+            rets, _ = I.analyse(f, self_obj=Obj(ci.cls, dict(fl)), params={f.value_params[0].arg: Iv(y, y)})
+            v = {int(x.lo) for x, _ in rets if isinstance(x, Iv) and x.const}
+            ends.append(next(iter(v)) if len(v) == 1 else None)
+        how = "year starts evaluated"
+        if None in ends:
+            spec = _leap_spec(ctx, ci)
+            common = {"_PersianSimpleYearMonthDayCalculator": 365, "_PersianArithmeticYearMonthDayCalculator": 365}.get(ci.cls)
+            if spec is None or common is None or ci.min_year != 1:
+                rr.undecided.append(f"{ci.label}: first / last day not available to the analysis (table-driven year starts)")
+                continue
+            want = spec[0]
+            total = sum(common + (1 if want(y) else 0) for y in range(1, ci.max_year + 1))
+            ends = [s1, s1 + total]
+            how = "last day from the published leap rule (R02.2)"
+        rr.inst()
+        lo_day, hi_day = ends[0], ends[1] - 1
+        c_lo, c_hi = tz((lo_day - s1) * 10, a) + 1, tz((hi_day - s1) * 10, a) + 1
+        if ci.min_year - 1 <= c_lo and c_hi <= ci.max_year + 1:
+            rr.ok({"calculator": ci.label, "estimate range": [c_lo, c_hi], "domain": [ci.min_year - 1, ci.max_year + 1], "how": how})
+        else:
+            rr.fail(ci.label, f"year estimate ranges over [{c_lo}, {c_hi}] on the calendar's days but the year-start function is only defined on [{ci.min_year - 1}, {ci.max_year + 1}] (average days per 10 years = {a}): in-range day numbers index past the year-start table / cache domain", ctx.loc(gy))
+    return rr
+
+# shared: the year-start caches (home R13.1) and the Hebrew year starts (home R02.7) feed every day-number conversion
+from .c02 import r02_7_hebrew_molad as _r02_7, r02_8_registry_round_trip as _r02_8  # noqa: E402
+from .c13 import r13_1_year_cache_keys as _r13_1b  # noqa: E402
+
+rule("C01")(_r13_1b)
+rule("C01")(_r02_7)
+rule("C01")(_r02_8)
